@@ -538,12 +538,28 @@ theorem range_str_correct (cs : List Nat) :
   · simp only [implMonad, implRange]
     rw [pyDedupBy_eq_refRange id (· == ·) cs (fun _ _ _ _ => rfl)]
 
+theorem any_ints (p : Val → Bool) (hp : ∀ n, p (.int n) = false) (ns : List Int) :
+    (ns.map Val.int).any p = false := by
+  induction ns with
+  | nil => rfl
+  | cons n ns ih => simp [hp, ih]
+
+theorem vmatch_int (a b : Int) : vmatch (.int a) (.int b) = (a == b) := by
+  simp [vmatch]
+
+theorem refRange_ints (ns : List Int) :
+    refRange vmatch (ns.map Val.int) = (refRange (· == ·) ns).map Val.int :=
+  refRange_map Val.int (· == ·) vmatch vmatch_int ns
+
 /-- **range_ints_correct**: the `set()`-of-`str(x)` loop over an integer vector of any length is
-    Range (unique elements in order of appearance, integers compared exactly).
-    `refMonad "?"` compares with `vmatch`, which on two integers goes through `Float` (opaque to
-    the kernel): the statement is against the same `refRange` with exact integer equality. -/
+    the reference's Range (unique elements in order of appearance) -/
 theorem range_ints_correct (ns : List Int) :
+    refMonad "?" (.list (ns.map .int)) = some (.list ((refRange (· == ·) ns).map .int)) ∧
     implMonad "?" (.list (ns.map .int)) = .ok (.list ((refRange (· == ·) ns).map .int)) := by
+  constructor
+  · simp only [refMonad, refRange_ints]
+    rw [any_ints _ (fun _ => rfl)]
+    simp
   cases ns with
   | nil => simp [implMonad, implRange, refRange]
   | cons n ns =>
@@ -552,36 +568,52 @@ theorem range_ints_correct (ns : List Int) :
     simp only [implMonad, List.map_cons, implRange, h, ofInts]
     rw [pyDedupBy_eq_refRange id (· == ·) (n :: ns) (fun _ _ _ _ => rfl)]
 
-/-- equal `str()` means Match, on the members of the operand (Bool-valued, computable) -/
+/-- equal loop keys `(is_number, is KGSym, is_list, str(x))` mean Match, on the members of the
+    operand (Bool-valued, computable) -/
 def strFaithful (xs : List Val) : Bool :=
-  xs.all fun x => xs.all fun y => vmatch x y == (pyStr x == pyStr y)
+  xs.all fun x => xs.all fun y => vmatch x y == (rangeKey x == rangeKey y)
 
 /-- **range_obj_correct**: on an object vector (integers, characters, strings, symbols mixed)
-    the `set()`-of-`str(x)` loop is Range, PROVIDED no two members that do not match have the
-    same `str()` -/
-theorem range_obj_correct (xs : List Val) (h1 : asInts xs = none) (h2 : asIntRows xs = none)
+    the `set()` loop keyed by `(is_number, is KGSym, is_list, str(x))` is the reference's Range,
+    PROVIDED no two members that do not match have the same key.  After 69a7d58 the only such
+    pair among the modelled members is a character and the one-character string with the same
+    text — lists holding both a character and a string are outside the reference anyway. -/
+theorem range_obj_correct (xs : List Val) (v : Val) (href : refMonad "?" (.list xs) = some v)
+    (h1 : asInts xs = none) (h2 : asIntRows xs = none)
     (h3 : xs.all (fun x => (pyStr x).isSome) = true) (hf : strFaithful xs = true) :
-    implMonad "?" (.list xs) = .ok (.list (refRange vmatch xs)) ∧
-    refMonad "?" (.list xs) = some (.list (refRange vmatch xs)) := by
-  refine ⟨?_, by simp [refMonad]⟩
+    implMonad "?" (.list xs) = .ok v := by
+  simp only [refMonad] at href
+  split at href
+  · cases href
+  simp only [Option.some.injEq] at href
+  subst href
   cases xs with
   | nil => simp [asInts] at h1
   | cons x xs =>
     simp only [implMonad, implRange, h1, h2, h3, if_true]
-    rw [pyDedupBy_eq_refRange pyStr vmatch (x :: xs)]
+    rw [pyDedupBy_eq_refRange rangeKey vmatch (x :: xs)]
     intro a ha b hb
     simp only [strFaithful, List.all_eq_true, beq_iff_eq] at hf
     exact hf a ha b hb
 
-/-- the excluded class is real: a string and a character (an integer and its decimal string, a
-    symbol and its name) have the same `str()`, so the code drops the second — `?["a" 0ca]` -/
-theorem range_str_collision :
+/-- the repaired behaviour (69a7d58): an integer and its decimal string, a symbol and its name
+    print alike but are kept apart — `?[-12 "-12" -12]` is `[-12 "-12"]`, `?[:a "a"]` is
+    `[:a "a"]` — and such lists satisfy the hypothesis of `range_obj_correct` -/
+theorem range_kinds_kept :
+    strFaithful [.int (-12), .str [45, 49, 50], .int (-12)] = true ∧
+    (implRange (.list [.int (-12), .str [45, 49, 50], .int (-12)])).isOk
+      (.list [.int (-12), .str [45, 49, 50]]) = true ∧
+    strFaithful [.sym [97], .str [97]] = true ∧
+    (implRange (.list [.sym [97], .str [97]])).isOk (.list [.sym [97], .str [97]]) = true := by
+  decide
+
+/-- the remaining excluded class is real: a character and the one-character string with the
+    same text still have the same key, so the code drops the second — `?["a" 0ca]` is `["a"]`
+    (klongpy's own character/string identity; the reference compares them with Match) -/
+theorem range_chr_str_collision :
     strFaithful [.str [97], .chr 97] = false ∧
     (implRange (.list [.str [97], .chr 97])).isOk (.list [.str [97]]) = true ∧
     (refRange vmatch [.str [97], .chr 97]).length = 2 := by decide
-
-theorem range_int_str_collision :
-    (implRange (.list [.int (-12), .str [45, 49, 50]])).isOk (.list [.int (-12)]) = true := by decide
 
 example : strFaithful [.int 1, .str [97], .sym [98], .chr 120] = true := by decide
 
@@ -869,16 +901,87 @@ theorem group_str_correct (cs : List Nat) :
   | cons c cs =>
     simp only [implMonad, implGroup, refMonad, href, implGroupKeys_eq, groupsVal, ofNats]
 
-/-- **group_ints_correct**: Group of an integer vector of any length: the groups of the reference
-    (integers compared exactly; `refMonad "="` compares through `Float`, see range_ints_correct) -/
+/-- **group_ints_correct**: Group of an integer vector of any length is the reference's value -/
 theorem group_ints_correct (ns : List Int) :
+    refMonad "=" (.list (ns.map .int)) = some (groupsVal (refGroup (· == ·) ns)) ∧
     implMonad "=" (.list (ns.map .int)) = .ok (groupsVal (refGroup (· == ·) ns)) := by
+  constructor
+  · simp only [refMonad, refGroup_map Val.int (· == ·) vmatch vmatch_int, groupsVal, ofNats]
+    rw [any_ints _ (fun _ => rfl)]
+    simp
   cases ns with
   | nil => simp [implMonad, implGroup, refGroup, refRange, groupsVal]
   | cons n ns =>
     have h := asInts_map (n :: ns)
     simp only [List.map_cons] at h
     simp only [implMonad, List.map_cons, implGroup, h, implGroupKeys_eq]
+
+/-! ### what the groups are (the reference's Group, spelled out) -/
+
+theorem mem_positions (keys : List Int) (k : Int) (i : Nat) :
+    i ∈ positions keys k ↔ keys[i]? = some k := by
+  unfold positions
+  simp only [List.mem_map, List.mem_filter, List.mem_zipIdx_iff_getElem?]
+  constructor
+  · rintro ⟨p, ⟨hp, hk⟩, rfl⟩
+    rw [hp]
+    simp at hk
+    rw [hk]
+  · intro h
+    exact ⟨(k, i), ⟨h, by simp⟩, rfl⟩
+
+theorem positions_sorted (keys : List Int) (k : Int) : (positions keys k).Pairwise (· < ·) := by
+  unfold positions
+  have h : (keys.zipIdx.map (·.2)).Pairwise (· < ·) := by
+    rw [List.zipIdx_map_snd 0 keys, ← List.range_eq_range']
+    exact List.pairwise_lt_range
+  exact List.Pairwise.sublist (List.Sublist.map _ List.filter_sublist) h
+
+/-- **group_spec**: the modelled Group, for a vector of any length: (1) the groups partition
+    the positions 0..n-1; (2) every group lists, in ascending order, exactly the positions of
+    one value; (3) the groups are ordered by the first appearance of their value -/
+theorem group_spec (keys : List Int) :
+    (implGroupKeys keys).flatten.Perm (List.range keys.length) ∧
+    (∀ g ∈ implGroupKeys keys, g.Pairwise (· < ·) ∧ ∃ k ∈ keys, ∀ i, i ∈ g ↔ keys[i]? = some k) ∧
+    (implGroupKeys keys).length = (refRange (· == ·) keys).length ∧
+    ((refRange (· == ·) keys).map (keys.idxOf ·)).Pairwise (· < ·) ∧
+    (∀ j (h : j < (refRange (· == ·) keys).length),
+      (implGroupKeys keys)[j]? = some (positions keys (refRange (· == ·) keys)[j])) := by
+  rw [implGroupKeys_eq, refGroup_eq]
+  refine ⟨?_, ?_, by simp, refRange_idxOf_lt keys, ?_⟩
+  · rw [List.perm_ext_iff_of_nodup]
+    · intro i
+      simp only [List.mem_flatten, List.mem_map, List.mem_range]
+      constructor
+      · rintro ⟨g, ⟨k, _, rfl⟩, hi⟩
+        have := (mem_positions keys k i).mp hi
+        rcases Nat.lt_or_ge i keys.length with h | h
+        · exact h
+        · rw [List.getElem?_eq_none h] at this; cases this
+      · intro hi
+        refine ⟨positions keys keys[i], ⟨keys[i], ?_, rfl⟩, ?_⟩
+        · exact (mem_refRange keys _).mpr (List.getElem_mem hi)
+        · exact (mem_positions keys _ i).mpr (List.getElem?_eq_getElem hi)
+    · show List.Pairwise (· ≠ ·) _
+      rw [List.pairwise_flatten]
+      constructor
+      · intro g hg
+        obtain ⟨k, _, rfl⟩ := List.mem_map.mp hg
+        exact (positions_sorted keys k).imp (fun h => Nat.ne_of_lt h)
+      · rw [List.pairwise_map]
+        apply (refRange_nodup keys).imp
+        intro a b hab i hia j hjb hij
+        subst hij
+        have h1 := (mem_positions keys a i).mp hia
+        have h2 := (mem_positions keys b i).mp hjb
+        rw [h1] at h2
+        exact hab (Option.some.inj h2)
+    · exact List.nodup_range
+  · intro g hg
+    obtain ⟨k, hk, rfl⟩ := List.mem_map.mp hg
+    exact ⟨positions_sorted keys k, k, (mem_refRange keys k).mp hk, mem_positions keys k⟩
+  · intro j h
+    simp [List.getElem?_map, List.getElem?_eq_getElem h]
 
 /-- "hello foo": the manual's example -/
 example : (implGroup (.str [104, 101, 108, 108, 111, 32, 102, 111, 111])).isOk
@@ -1055,18 +1158,19 @@ theorem shape_atom_correct :
     implShape (.list []) = .ok (.int 0) ∧ implShape (.str []) = .ok (.int 0) ∧
     refMonad "^" (.list []) = some (.int 0) := ⟨rfl, rfl, rfl⟩
 
-/-- the excluded class is real.  (1) members of one common reference shape, one of them ragged
-    inside: `^[[[1 2] [[1] [2 3]]] [[1 2] [[1] [2 3]]]]` is [2] in the code, [2 2 2] in the
-    reference.  (2) empty members: `^[["" ""] ["" ""]]` is [2 2 0] in the code, [2 2] in the
-    reference ("" is an atom). -/
+/-- the excluded class is real.  (1) members of one common `refShape`, one of them ragged
+    inside: `^[[[1 2] [[1] [2 3]]] [[1 2] [[1] [2 3]]]]` is [2] in the code, `refShape` says
+    [2 2 2].  (2) empty members: `^[["" ""] ["" ""]]` is [2 2 0] in the code, `refShape` says
+    [2 2] ("" is an atom).  Both are ambiguous in the manual: `refMonad "^"` leaves them
+    undefined (`shapeAmb`, applied at every depth). -/
 theorem shape_deviation :
     let r := Val.list [.list [.int 1, .int 2], .list [.list [.int 1], .list [.int 2, .int 3]]]
     let w := Val.list [r, r]
     shapeClass w = false ∧ (implShape w).isOk (.list (ofNats [2])) = true ∧
-      refShape w = [2, 2, 2] ∧
+      refShape w = [2, 2, 2] ∧ shapeAmb w = true ∧
     (let e := Val.list [.list [.str [], .str []], .list [.str [], .str []]]
      shapeClass e = false ∧ (implShape e).isOk (.list (ofNats [2, 2, 0])) = true ∧
-       refShape e = [2, 2]) := by decide
+       refShape e = [2, 2] ∧ shapeAmb e = true) := by decide
 
 example : shapeClass (.list [.list [.list [.int 1, .int 2], .list [.int 3, .int 4]],
     .list [.list [.int 5, .int 6], .list [.int 7, .int 8]]]) = true := by decide
@@ -1309,10 +1413,12 @@ theorem reshape_correct (a b v : Val) (h : refDyad ":^" a b = some v) :
     | str cs => simp at h
     | _ =>
       left
-      simp [flattenAll] at h
-      have h1 : ¬ (n < 0) := by omega
-      have h2 : ¬ (n = 0) := by omega
-      simp only [h1, h2, if_false]
+      first
+        | (simp [flattenAll] at h; done)
+        | (simp [flattenAll] at h
+           have h1 : ¬ (n < 0) := by omega
+           have h2 : ¬ (n = 0) := by omega
+           simp only [h1, h2, if_false])
   | _ => simp [refDyad, aopOf] at h
 
 
